@@ -433,6 +433,12 @@ def clause_list_oldest_first(prog, rep, sites, rule="prune-after-push"):
                 rep.check(ob[:1] == [("created_at", "ASC")], rule, "list-oldest-first/sqlite",
                           "the stored snapshots are listed by created_at ascending", "list_group_snapshots orders by %s, not by created_at ascending: the hydrated "
                           "queue is not oldest-first and the retention loop releases the wrong snapshots after a restart" % (ob or "nothing"), s_.loc())
+                byname = [c for c, d in ob[1:] if c == "snapshot_name"]
+                rep.check(not byname, rule, "list-oldest-first/sqlite/no-name-tiebreak",
+                          "snapshots created in the same second are not re-ordered by name",
+                          "list_group_snapshots breaks created_at ties (one-second resolution) by snapshot_name: the name embeds the un-padded "
+                          "decimal epoch, so epoch 10 sorts before epoch 9 — after a restart the retention loop keeps an older snapshot and "
+                          "releases a more recent one", s_.loc())
     for f in prog.find(adt="MdkMemoryStorage", name="list_group_snapshots", trait="MdkStorageProvider"):
         fam = P.family(prog, f)
         sorts = [c for g in fam for c in g.live_calls() if c.name in ("sort_by_key", "sort_by", "sort_unstable_by_key", "sort_unstable_by", "sort_by_cached_key")]
